@@ -14,6 +14,14 @@ Definition vresize {A} (n : nat) (d : A) (l : list A) : list A := firstn n l ++ 
 (* writing `new` over the first |new| elements of `old` *)
 Definition overwrite_prefix {A} (new old : list A) : list A := new ++ skipn (length new) old.
 
+(* ---------------- QLPC error buffer (coding.rs estimated_qlpc + lpc.rs compute_error) ---------------- *)
+(* The thread-local Vec<i32> is resized to the block length (old contents kept), then compute_error writes its
+   result over it: the fast path zero-fills the whole slice and accumulates, the 64-bit path assigns every element. *)
+Definition qlpc_error_buffer (stale : list Z) (q : qparams) (signal : list Z) : Res (list Z) :=
+  let buf := vresize (length signal) 0%Z stale in
+  do e <- lpc_errors q signal;
+  Ok (overwrite_prefix e buf).
+
 (* ---------------- Rice parameter finder ---------------- *)
 Record finder := mkFinder { fd_errors : list N; fd_ps : list N; fd_min_ps : list N }.
 
